@@ -84,6 +84,16 @@ package parser
 //@ func (*Parser).parseParensExp
 //@   sweep C01
 //@ end
+// C03: parentheses change the grammar around a call, a vararg, a name and an index expression - `(f())` is an
+// expression, not a call statement, and `(a)` is not an assignment target. The statement parser tells these apart by
+// node type only (a bare FuncCallExp is a call statement, a bare NameExp / TableAccessExp is assignable), so the
+// parentheses of exactly these four kinds must survive as a ParensExp node around the very expression parsed.
+//@ func (*Parser).parseParensExp
+//@   props C03
+//@   ensures[parentheses-kept-where-they-change-the-grammar] typeis(exp, "*ast.FuncCallExp") || typeis(exp, "*ast.VarargExp") || typeis(exp, "*ast.NameExp") || typeis(exp, "*ast.TableAccessExp")
+//@        ==> typeis(result, "*ast.ParensExp") && as(result, "*ast.ParensExp").Exp == exp
+//@   ensures[other-expressions-pass-through] !(typeis(exp, "*ast.FuncCallExp") || typeis(exp, "*ast.VarargExp") || typeis(exp, "*ast.NameExp") || typeis(exp, "*ast.TableAccessExp")) ==> result == exp
+//@ end
 
 //@ func (*Parser).finishPrefixExp
 //@   sweep C01
